@@ -19,7 +19,7 @@ Obs0 == [phase |-> "idle", hung |-> {}, extra |-> 0, touched |-> 0, shown |-> TR
          stop |-> "none", stopdel |-> FALSE, pause |-> FALSE, silence |-> FALSE, left |-> 0,
          ms |-> [r \in Roles |-> 0], since |-> [r \in Roles |-> -1], npresent |-> 0, keptok |-> TRUE,
          timeout |-> 0, run |-> -1, fkind |-> "none", prehs |-> FALSE,
-         pdata |-> 0, pkeep |-> 0, dataafter |-> 0, pausems |-> 0, crashed |-> FALSE, vmgrow |-> 0]
+         pdata |-> 0, pkeep |-> 0, dataafter |-> 0, pausems |-> 0, npauses |-> 0, crashed |-> FALSE, vmgrow |-> 0]
 
 (* one abstract one-block file stands for the whole named tree: DstSame(1) <=> every entry same *)
 OneFile == <<[dir |-> FALSE, size |-> 1, comp |-> FALSE]>>
@@ -82,7 +82,7 @@ TFs ==
                               THEN Src(1) ELSE Cont(0, 1)]
     /\ obs' = [obs EXCEPT !.phase = "judged", !.extra = Ev.extra, !.touched = Ev.touched, !.shown = Ev.shown,
                           !.n = Ev.n, !.nsame = Ev.nsame, !.npresent = Ev.npresent, !.keptok = Ev.keptok,
-                          !.vmgrow = Ev.vmgrow, !.pdata = Ev.pdata, !.pkeep = Ev.pkeep, !.dataafter = Ev.dataafter, !.pausems = Ev.pausems]
+                          !.vmgrow = Ev.vmgrow, !.pdata = Ev.pdata, !.pkeep = Ev.pkeep, !.dataafter = Ev.dataafter, !.pausems = Ev.pausems, !.npauses = Ev.npauses]
     /\ UNCHANGED <<cf, chan, dead, pc, fi, rem, outst, sdig, got, ackq, fin, rsize, nann, rdig, result, fileOK, stopped,
                    faults, told>>
 
@@ -141,7 +141,8 @@ ShortPause == obs.pausems * 2 <= obs.timeout * 1000
 ObsShortPauseCompletes == (Judged /\ Paused /\ ShortPause) => (obs.hung = {} /\ \A r \in Roles : result[r] = "ok")
 PauseBoundMs == obs.pausems * 3 + 2 * obs.timeout * 1000 + 1500 + 8000
 ObsPauseNoHang == (Judged /\ Paused) => (obs.hung = {} /\ \A r \in Roles : obs.since[r] <= PauseBoundMs)
-ObsNoDataWhilePaused == (Judged /\ Paused) => obs.pdata <= 1
+(* per pause at most the one chunk that had already passed its pause check *)
+ObsNoDataWhilePaused == (Judged /\ Paused) => obs.pdata <= obs.npauses
 ObsKeepAlive == (Judged /\ Paused /\ cf.upload /\ obs.dataafter > 0 /\ obs.pausems >= 500) => obs.pkeep >= 1
 
 (* C12.  Whatever one field of the peer's messages is replaced by: the process survives, its      *)
